@@ -7,6 +7,7 @@ ROOT = os.path.dirname(os.path.dirname(os.path.abspath(__file__)))
 
 
 def main():
+    notes = json.load(open(os.path.join(ROOT, "seeded", "_strengthening_notes.json")))["notes"]
     rows = []
     for f in sorted(glob.glob(os.path.join(ROOT, "seeded", "C*", "meta.json"))):
         m = json.load(open(f))
@@ -14,12 +15,14 @@ def main():
         sigs = []
         for c in det:
             sigs += m["checks"][c]["signatures"][:1]
-        notes = m.get("needs_to_manifest", "").replace("\n", " ")
-        rows.append((m["id"], m["property"], ", ".join(det) if det else "**missed**", (sigs[0] if sigs else "")[:90]))
-    print("| seeded change | property | caught by (quick tier) | first signature |")
-    print("|---|---|---|---|")
+        nt = notes.get(m["id"], {})
+        hist = {"observed_miss": "missed at first; ", "anticipated_miss": "would have been missed; ", "note": ""}.get(nt.get("kind"), "")
+        rows.append((m["id"], m["property"], ", ".join(det) if det else "**missed**", (sigs[0] if sigs else "")[:80],
+                     (hist + nt.get("strengthening", "")) if nt else ""))
+    print("| seeded change | property | caught by (quick tier) | first signature | history |")
+    print("|---|---|---|---|---|")
     for r in rows:
-        print("| `%s` | %s | %s | `%s` |" % r)
+        print("| `%s` | %s | %s | `%s` | %s |" % r)
     print()
     print("%d seeded changes, %d caught" % (len(rows), sum(1 for r in rows if "missed" not in r[2])))
 
